@@ -2367,6 +2367,7 @@ impl<'a, T> PrecedingSiblings<'a, T> {
                             d[k] == first,
                             run_ok(arena.nodes@, d, false),
                             lnk(arena.nodes@[d[d.len() - 1].idx()], false) is None,
+                            k + 1 < d.len() ==> lnk(arena.nodes@[d[k].idx()], false) == Some(d[k + 1]),
                         ensures
                             k == d.len() - 1,
                         // @ob C02.PrecedingSiblings_far_end_walk_terminates C02
@@ -2428,42 +2429,25 @@ impl<'a, T> PrecedingSiblings<'a, T> {
                     )
                 },
     {
+        proof {
+            // established once, for whatever state the function ends in (triggered by the deque of the postcondition)
+            lemma_deq_all(self.0.arena.nodes@, false);
+        }
         match (self.0.head, self.0.tail) {
             (Some(head), Some(tail)) if head == tail => {
                 let result = head;
                 self.0.head = None;
                 self.0.tail = None;
-                proof {
-                    assert forall|d: Seq<NodeId>| #[trigger]
-                        deq(old(self).0.arena.nodes@, old(self).0.head, old(self).0.tail, d, false) implies d.len() == 1 by {
-                        lemma_deq_pop(old(self).0.arena.nodes@, d, false);
-                    }
-                }
+
                 Some(result)
             }
             (Some(head), None) | (Some(head), Some(_)) => {
-                proof {
-                    let d0 = choose|d: Seq<NodeId>| deq(self.0.arena.nodes@, self.0.head, self.0.tail, d, false);
-                    assert(tgt_ok(self.0.arena.nodes@, Some(d0[0])));
-                }
+
                 self.0.head = {
                     let head = &self.0.arena[head];
                     head.previous_sibling
                 };
-                proof {
-                    assert forall|d: Seq<NodeId>| #[trigger]
-                        deq(old(self).0.arena.nodes@, old(self).0.head, old(self).0.tail, d, false) implies d.len() > 1 && deq(
-                        self.0.arena.nodes@,
-                        self.0.head,
-                        self.0.tail,
-                        d.drop_first(),
-                        false,
-                    ) by {
-                        lemma_deq_pop(old(self).0.arena.nodes@, d, false);
-                        assert(d.drop_first()[0] == d[1]);
-                        assert(d.drop_first()[d.len() - 2] == d[d.len() - 1]);
-                    }
-                }
+
                 Some(head)
             }
             (None, Some(_)) | (None, None) => None,
@@ -2498,42 +2482,25 @@ impl<'a, T> PrecedingSiblings<'a, T> {
                     )
                 },
     {
+        proof {
+            // established once, for whatever state the function ends in (triggered by the deque of the postcondition)
+            lemma_deq_all(self.0.arena.nodes@, false);
+        }
         match (self.0.head, self.0.tail) {
             (Some(head), Some(tail)) if head == tail => {
                 let result = head;
                 self.0.head = None;
                 self.0.tail = None;
-                proof {
-                    assert forall|d: Seq<NodeId>| #[trigger]
-                        deq(old(self).0.arena.nodes@, old(self).0.head, old(self).0.tail, d, false) implies d.len() == 1 by {
-                        lemma_deq_pop(old(self).0.arena.nodes@, d, false);
-                    }
-                }
+
                 Some(result)
             }
             (None, Some(tail)) | (Some(_), Some(tail)) => {
-                proof {
-                    let d0 = choose|d: Seq<NodeId>| deq(self.0.arena.nodes@, self.0.head, self.0.tail, d, false);
-                    assert(tgt_ok(self.0.arena.nodes@, Some(d0[d0.len() - 1])));
-                }
+
                 self.0.tail = {
                     let tail = &self.0.arena[tail];
                     tail.next_sibling
                 };
-                proof {
-                    assert forall|d: Seq<NodeId>| #[trigger]
-                        deq(old(self).0.arena.nodes@, old(self).0.head, old(self).0.tail, d, false) implies d.len() > 1 && deq(
-                        self.0.arena.nodes@,
-                        self.0.head,
-                        self.0.tail,
-                        d.drop_last(),
-                        false,
-                    ) by {
-                        lemma_deq_pop(old(self).0.arena.nodes@, d, false);
-                        assert(d.drop_last()[0] == d[0]);
-                        assert(d.drop_last()[d.len() - 2] == d[d.len() - 2]);
-                    }
-                }
+
                 Some(tail)
             }
             (Some(_), None) | (None, None) => None,
@@ -2580,6 +2547,7 @@ impl<'a, T> FollowingSiblings<'a, T> {
                             d[k] == last,
                             run_ok(arena.nodes@, d, true),
                             lnk(arena.nodes@[d[d.len() - 1].idx()], true) is None,
+                            k + 1 < d.len() ==> lnk(arena.nodes@[d[k].idx()], true) == Some(d[k + 1]),
                         ensures
                             k == d.len() - 1,
                         // @ob C02.FollowingSiblings_far_end_walk_terminates C02
@@ -2641,42 +2609,25 @@ impl<'a, T> FollowingSiblings<'a, T> {
                     )
                 },
     {
+        proof {
+            // established once, for whatever state the function ends in (triggered by the deque of the postcondition)
+            lemma_deq_all(self.0.arena.nodes@, true);
+        }
         match (self.0.head, self.0.tail) {
             (Some(head), Some(tail)) if head == tail => {
                 let result = head;
                 self.0.head = None;
                 self.0.tail = None;
-                proof {
-                    assert forall|d: Seq<NodeId>| #[trigger]
-                        deq(old(self).0.arena.nodes@, old(self).0.head, old(self).0.tail, d, true) implies d.len() == 1 by {
-                        lemma_deq_pop(old(self).0.arena.nodes@, d, true);
-                    }
-                }
+
                 Some(result)
             }
             (Some(head), None) | (Some(head), Some(_)) => {
-                proof {
-                    let d0 = choose|d: Seq<NodeId>| deq(self.0.arena.nodes@, self.0.head, self.0.tail, d, true);
-                    assert(tgt_ok(self.0.arena.nodes@, Some(d0[0])));
-                }
+
                 self.0.head = {
                     let head = &self.0.arena[head];
                     head.next_sibling
                 };
-                proof {
-                    assert forall|d: Seq<NodeId>| #[trigger]
-                        deq(old(self).0.arena.nodes@, old(self).0.head, old(self).0.tail, d, true) implies d.len() > 1 && deq(
-                        self.0.arena.nodes@,
-                        self.0.head,
-                        self.0.tail,
-                        d.drop_first(),
-                        true,
-                    ) by {
-                        lemma_deq_pop(old(self).0.arena.nodes@, d, true);
-                        assert(d.drop_first()[0] == d[1]);
-                        assert(d.drop_first()[d.len() - 2] == d[d.len() - 1]);
-                    }
-                }
+
                 Some(head)
             }
             (None, Some(_)) | (None, None) => None,
@@ -2711,42 +2662,25 @@ impl<'a, T> FollowingSiblings<'a, T> {
                     )
                 },
     {
+        proof {
+            // established once, for whatever state the function ends in (triggered by the deque of the postcondition)
+            lemma_deq_all(self.0.arena.nodes@, true);
+        }
         match (self.0.head, self.0.tail) {
             (Some(head), Some(tail)) if head == tail => {
                 let result = head;
                 self.0.head = None;
                 self.0.tail = None;
-                proof {
-                    assert forall|d: Seq<NodeId>| #[trigger]
-                        deq(old(self).0.arena.nodes@, old(self).0.head, old(self).0.tail, d, true) implies d.len() == 1 by {
-                        lemma_deq_pop(old(self).0.arena.nodes@, d, true);
-                    }
-                }
+
                 Some(result)
             }
             (None, Some(tail)) | (Some(_), Some(tail)) => {
-                proof {
-                    let d0 = choose|d: Seq<NodeId>| deq(self.0.arena.nodes@, self.0.head, self.0.tail, d, true);
-                    assert(tgt_ok(self.0.arena.nodes@, Some(d0[d0.len() - 1])));
-                }
+
                 self.0.tail = {
                     let tail = &self.0.arena[tail];
                     tail.previous_sibling
                 };
-                proof {
-                    assert forall|d: Seq<NodeId>| #[trigger]
-                        deq(old(self).0.arena.nodes@, old(self).0.head, old(self).0.tail, d, true) implies d.len() > 1 && deq(
-                        self.0.arena.nodes@,
-                        self.0.head,
-                        self.0.tail,
-                        d.drop_last(),
-                        true,
-                    ) by {
-                        lemma_deq_pop(old(self).0.arena.nodes@, d, true);
-                        assert(d.drop_last()[0] == d[0]);
-                        assert(d.drop_last()[d.len() - 2] == d[d.len() - 2]);
-                    }
-                }
+
                 Some(tail)
             }
             (Some(_), None) | (None, None) => None,
@@ -2811,42 +2745,22 @@ impl<'a, T> Children<'a, T> {
                     )
                 },
     {
+        proof {
+            // established once, for whatever state the function ends in (triggered by the deque of the postcondition)
+            lemma_deq_all(self.0.arena.nodes@, true);
+        }
         match (self.0.head, self.0.tail) {
             (Some(head), Some(tail)) if head == tail => {
                 let result = head;
                 self.0.head = None;
                 self.0.tail = None;
-                proof {
-                    assert forall|d: Seq<NodeId>| #[trigger]
-                        deq(old(self).0.arena.nodes@, old(self).0.head, old(self).0.tail, d, true) implies d.len() == 1 by {
-                        lemma_deq_pop(old(self).0.arena.nodes@, d, true);
-                    }
-                }
                 Some(result)
             }
             (Some(head), None) | (Some(head), Some(_)) => {
-                proof {
-                    let d0 = choose|d: Seq<NodeId>| deq(self.0.arena.nodes@, self.0.head, self.0.tail, d, true);
-                    assert(tgt_ok(self.0.arena.nodes@, Some(d0[0])));
-                }
                 self.0.head = {
                     let node = &self.0.arena[head];
                     node.next_sibling
                 };
-                proof {
-                    assert forall|d: Seq<NodeId>| #[trigger]
-                        deq(old(self).0.arena.nodes@, old(self).0.head, old(self).0.tail, d, true) implies d.len() > 1 && deq(
-                        self.0.arena.nodes@,
-                        self.0.head,
-                        self.0.tail,
-                        d.drop_first(),
-                        true,
-                    ) by {
-                        lemma_deq_pop(old(self).0.arena.nodes@, d, true);
-                        assert(d.drop_first()[0] == d[1]);
-                        assert(d.drop_first()[d.len() - 2] == d[d.len() - 1]);
-                    }
-                }
                 Some(head)
             }
             (None, Some(_)) | (None, None) => None,
@@ -2881,42 +2795,25 @@ impl<'a, T> Children<'a, T> {
                     )
                 },
     {
+        proof {
+            // established once, for whatever state the function ends in (triggered by the deque of the postcondition)
+            lemma_deq_all(self.0.arena.nodes@, true);
+        }
         match (self.0.head, self.0.tail) {
             (Some(head), Some(tail)) if head == tail => {
                 let result = head;
                 self.0.head = None;
                 self.0.tail = None;
-                proof {
-                    assert forall|d: Seq<NodeId>| #[trigger]
-                        deq(old(self).0.arena.nodes@, old(self).0.head, old(self).0.tail, d, true) implies d.len() == 1 by {
-                        lemma_deq_pop(old(self).0.arena.nodes@, d, true);
-                    }
-                }
+
                 Some(result)
             }
             (None, Some(tail)) | (Some(_), Some(tail)) => {
-                proof {
-                    let d0 = choose|d: Seq<NodeId>| deq(self.0.arena.nodes@, self.0.head, self.0.tail, d, true);
-                    assert(tgt_ok(self.0.arena.nodes@, Some(d0[d0.len() - 1])));
-                }
+
                 self.0.tail = {
                     let tail = &self.0.arena[tail];
                     tail.previous_sibling
                 };
-                proof {
-                    assert forall|d: Seq<NodeId>| #[trigger]
-                        deq(old(self).0.arena.nodes@, old(self).0.head, old(self).0.tail, d, true) implies d.len() > 1 && deq(
-                        self.0.arena.nodes@,
-                        self.0.head,
-                        self.0.tail,
-                        d.drop_last(),
-                        true,
-                    ) by {
-                        lemma_deq_pop(old(self).0.arena.nodes@, d, true);
-                        assert(d.drop_last()[0] == d[0]);
-                        assert(d.drop_last()[d.len() - 2] == d[d.len() - 2]);
-                    }
-                }
+
                 Some(tail)
             }
             (Some(_), None) | (None, None) => None,
